@@ -49,8 +49,31 @@ def sleeper_model(ctx, repo, rule="R3"):
             nm = getattr(callee, "name", "")
             if nm == "asyncio.get_running_loop" or nm == "asyncio.get_event_loop":
                 return Obj(None, {"create_future": Native(mkfut)}, name="loop")
+            if nm == "asyncio.sleep":
+                return Obj(None, {"delay": args[0] if args else kwargs.get("delay")}, name="sleep-coroutine")
+            if nm in ("asyncio.ensure_future", "asyncio.create_task") or (getattr(callee, "name", "") or "").endswith(".create_task"):
+                inner = args[0] if args else None
+                t_ = Obj(None, {"inner": inner, "_cancelled": False}, name="task")
+                t_.attrs["cancel"] = Native(lambda a2, k2, t_=t_: t_.attrs.__setitem__("_cancelled", True))
+                t_.attrs["done"] = Native(lambda a2, k2: False)
+                return t_
             if nm == "asyncio.wait":
-                waited.append((list(args[0]) if args else None, kwargs.get("timeout", "<no timeout>")))
+                aws = list(args[0]) if args else None
+                to = kwargs.get("timeout", "<no timeout>")
+                rw = kwargs.get("return_when", "ALL_COMPLETED")
+                rw = getattr(rw, "name", rw)
+                # a timer raced against the future: FIRST_COMPLETED over {future, task(sleep(d))} is a wait on the future
+                # bounded by d
+                timers = [a for a in (aws or []) if isinstance(a, Obj) and a.name == "task" and isinstance(a.attrs.get("inner"), Obj) and a.attrs["inner"].name == "sleep-coroutine"]
+                if timers and aws is not None:
+                    rest = [a for a in aws if a not in timers]
+                    if str(rw).endswith("FIRST_COMPLETED") and (to in ("<no timeout>", None)):
+                        d_ = timers[0].attrs["inner"].attrs["delay"]
+                        waited.append((rest, min([t2.attrs["inner"].attrs["delay"] for t2 in timers]) if len(timers) > 1 else d_))
+                    else:
+                        waited.append((aws, f"<{rw} over future and timer, timeout {to}>"))
+                    return (set(), set())
+                waited.append((aws, to))
                 return (set(), set())
             if nm == "asyncio.shield":
                 return Obj(None, {"inner": args[0] if args else None}, name="shield")
@@ -261,8 +284,10 @@ def check(ctx):
             continue
         having = [m8 for m8 in T8.modules.values() if d8 in m8.props.get("all_device_keys", [])]
         bad8 = [m8.stem for m8 in having if row8[2] not in m8.props.get("all_device_keys", []) or row8[2] in m8.props.get("user_demand_keys", [])]
+        if not having:
+            continue   # a device class row no shipped table offers (a newer pack's second blower): no such device is ever built
         n8 += 1
-        ctx.ob("R8", f"DEVICES::{d8}::state-item-is-an-output-state", bool(having) and not bad8,
+        ctx.ob("R8", f"DEVICES::{d8}::state-item-is-an-output-state", not bad8,
                f"GeckoConstants.DEVICES[{d8!r}] names {row8[2]!r} as its state item; in {len(bad8)} of the {len(having)} shipped tables that have the device (e.g. {bad8[:2]}) that is not an output-state item "
                f"(or is a user demand): is_on would follow what was asked for, not what runs", repo.cls("GeckoConstants").loc)
     ctx.floor("R8", "mode-driving DEVICES rows", n8, 6)
